@@ -99,14 +99,17 @@ void ed_norm_sim(ed_t *r, const ed_t *t, int n) {
 		fp_inv_sim(a, (const fp_t *)a, n);
 
 		for (int i = 0; i < n; i++) {
+			if (ed_is_infty(t[i])) {
+				/* (0 : Z : Z) must not be scaled by a Z that was not inverted. */
+				ed_set_infty(r[i]);
+				continue;
+			}
 			fp_copy(r[i]->x, t[i]->x);
 			fp_copy(r[i]->y, t[i]->y);
 #if ED_ADD == EXTND
 			fp_copy(r[i]->t, t[i]->t);
 #endif
-			if (!ed_is_infty(t[i])) {
-				fp_copy(r[i]->z, a[i]);
-			}
+			fp_copy(r[i]->z, a[i]);
 		}
 
 #if ED_ADD == PROJC || ED_ADD == EXTND || !defined(STRIP)
